@@ -1,3 +1,4 @@
+import os
 """
 C15 — failures surface as diagnostics, never as internal errors, crashes or hangs.
 
@@ -35,7 +36,16 @@ def formula_contexts(r, n):
             out.append("#program always. {a;b;p(1)}. q(1). &tel { %s }%s." % (f, r.choice(["", " :- a", " :- q(X)"])))
     return out
 
+def _quiet():
+    # clingo prints the parser's messages for rejected inputs on the process's stderr (telingo passes no logger);
+    # they are expected here by the thousand and are not part of any verdict
+    try:
+        fd = os.open(os.devnull, os.O_WRONLY); os.dup2(fd, 2); os.close(fd)
+    except OSError:
+        pass
+
 def _corr_chunk(args):
+    _quiet()
     seed, n = args
     r = random.Random(seed)
     texts = formula_contexts(r, n)
@@ -99,6 +109,7 @@ def cli_outcome(text):
     return ("ok" if p.returncode in (0, 10, 20, 30) else "diagnostic"), ""
 
 def _search_chunk(args):
+    _quiet()
     seed, n, ncli = args
     r = random.Random(seed)
     fails = []
